@@ -870,6 +870,31 @@ fn op_dup_member(doc: &Document, _: &Ctx, out: &mut Vec<Document>) {
                     c.defs.push(Definition::Type(e));
                 });
             }
+            // the same interface / union member again: in the same definition, and in a new extension
+            for k in 0..t.implements.len() {
+                push_with(doc, out, |c| {
+                    let x = tdef_mut(c, i).implements[k].clone();
+                    tdef_mut(c, i).implements.push(x);
+                });
+                push_with(doc, out, |c| {
+                    let mut e = TypeDef::new(t.kind, &t.name);
+                    e.extend = true;
+                    e.implements.push(t.implements[k].clone());
+                    c.defs.push(Definition::Type(e));
+                });
+            }
+            for k in 0..t.members.len() {
+                push_with(doc, out, |c| {
+                    let x = tdef_mut(c, i).members[k].clone();
+                    tdef_mut(c, i).members.push(x);
+                });
+                push_with(doc, out, |c| {
+                    let mut e = TypeDef::new(t.kind, &t.name);
+                    e.extend = true;
+                    e.members.push(t.members[k].clone());
+                    c.defs.push(Definition::Type(e));
+                });
+            }
             for k in 0..t.input_fields.len() {
                 push_with(doc, out, |c| {
                     let x = tdef_mut(c, i).input_fields[k].clone();
